@@ -178,7 +178,8 @@ def c14(tier):
     return codec_check(
         "C14", tier, ["enc"], mc,
         ["values: all varint boundaries + seeded random; frame payload lengths 0..140 + boundaries "
-         "(0..4096 all in thorough); all 64 subsets of the settings builder; header maps by class + random",
+         "(0..4096 all in thorough); all 64 subsets of the settings builder; header maps by class + random; "
+         "every encoded frame and stream header is read back through the slice reader and the asynchronous reader (same value, same byte count)",
          "the exhaustive sweep below 2^30 is not run: boundary + random samples of the code are judged instead; "
          "thorough: Apalache proves the reference's varint laws for all 2^62 values (spec-level, not code-level)"],
         _case_basic, _corrupt_size, extra_cov=extra)
@@ -633,8 +634,11 @@ def c06(tier):
         "C06", tier, scen.c06(tier, vlib.seed(), scripts), "C06Trace.tla", _corrupt_c06,
         ["every operation history of depth 3 (4 in thorough) over {write, finish, reset(c), stopped, read-to-end, stop(c)} "
          "enumerated by TLC from StreamLifeGen and replayed on two real wtransport endpoints with 40 ms barriers; "
-         "codes cycle through every varint-length boundary up to 2^62-1; 4 stream roles and both directions of bidirectional streams",
-         "results of races are not explored: every step is settled before the next one"],
+         "codes cycle through every varint-length boundary up to 2^62-1; 4 stream roles and both directions of bidirectional streams; "
+         "fixed families: abandoned finish, connection lost under an open stream, BiStream as the sender, and the link between the endpoints "
+         "cut by a UDP relay (StreamLife cut/uncut: no finish, first or repeated, may succeed while written bytes cannot be acknowledged; "
+         "afterwards a reset still reaches the reader / a finish succeeds and the reader sees every byte)",
+         "packet loss is injected only as a total cut of the link; results of races are not explored: every step is settled before the next one"],
         mc_results=[mcres], par=16, threads=4, extra_cov={"exhaustive": True})
 
 
@@ -908,7 +912,8 @@ def c07(tier):
     return e2e_check(
         "C07", tier, scen.c07(tier, vlib.seed()), "C07Trace.tla", _corrupt_c07,
         ["k = 1..5 stalled peer streams of either kind at 4 stall positions (1 byte of the preamble, preamble cut inside the session id, "
-         "complete preamble then silence, 200 kB unread), before or after healthy traffic; healthy uni + bidi streams, datagrams and a "
+         "complete preamble then silence, 200 kB unread), before or after healthy traffic; 1 / 4 / 5 / 9 unidirectional streams of reserved "
+         "(GREASE) types left open after their type, silent or with a few bytes; healthy uni + bidi streams, datagrams and a "
          "clean close must get through (5 s bound); both roles; Driver.tla checked for the liveness property below the queue capacities "
          "and shown to fail at them (known findings D7)",
          "a stream on which no byte at all was written does not exist for the receiver (QUIC sends nothing): the 'no byte' position is covered by '1 byte'"],
